@@ -179,6 +179,8 @@ pub struct ChainProg {
     pub handler: Option<(String, String)>,
     /// option prefix written in front of the branches (macro side only)
     pub options: String,
+    /// (nested invocation text, plain-Rust text) pairs, outermost last
+    pub nest_pairs: Vec<(String, String)>,
 }
 
 pub struct CG<'a> {
@@ -206,6 +208,8 @@ pub struct CG<'a> {
     pub nest_depth: usize,
     /// nestings generated so far: (outer position, inner macro, depth)
     pub nest_log: Vec<(String, String, usize)>,
+    /// (text of a nested invocation, the same chain written as plain Rust) - for control programs
+    pub nest_pairs: Vec<(String, String)>,
 }
 
 fn rb(rng: &mut TestRng, p: f64) -> bool {
@@ -277,11 +281,19 @@ impl<'a> CG<'a> {
         self.spawn_async = saved.4;
         let mut body = from_text.to_string();
         render_ops(&ops, &mut body);
-        if is_async {
-            format!("drive(::join::{}! {{ {} -> ready }})", mac, body)
-        } else {
-            format!("::join::{}! {{ {} }}", mac, body)
+        // the same chain as plain Rust (the documented method chain), for the control program
+        let inner_fam = if is_async { Family::AsyncClosed } else { Family::Sync };
+        let mut plain = format!("({})", from_text);
+        for op in &ops {
+            plain = ref_apply(plain, op, inner_fam);
         }
+        let (text, plain_text) = if is_async {
+            (format!("drive(::join::{}! {{ {} -> ready }})", mac, body), format!("drive((ready)({}))", plain))
+        } else {
+            (format!("::join::{}! {{ {} }}", mac, body), plain)
+        };
+        self.nest_pairs.push((text.clone(), plain_text));
+        text
     }
 
     fn cb(&mut self, a: &Ty, b: &Ty, allow_cap: bool) -> String {
